@@ -44,7 +44,7 @@ for p in props:
     })
 m = {
  "version": 1,
- "setup_cmd": "cd /verif/harness && CARGO_NET_OFFLINE=true cargo build --release --offline && cd /verif/spec && for m in Base Buffer Parser Terminal Vt Props StepProps ParserRef Dump Encode Trace MC Models MCParser MCChunk MCLimit MCText; do tla-sany $m.tla >/dev/null || exit 1; done",
+ "setup_cmd": "cd /verif/harness && CARGO_NET_OFFLINE=true cargo build --release --offline && cd /verif/spec && for m in Base Buffer Parser Terminal Vt Props StepProps ParserRef Williams Dump Encode Trace MC Models MCParser MCChunk MCLimit MCText; do tla-sany $m.tla >/dev/null || exit 1; done",
  "hooks": {"guard": "verif (cargo feature of the avt crate; off by default)",
            "enable": "harness/Cargo.toml depends on avt = { path = \"/repo\", features = [\"verif\"] }; every check rebuilds the harness (cargo build --release --offline) against /repo's working tree",
            "baseline_off_cmd": "cd /repo && cargo test --workspace --no-fail-fast --offline",
